@@ -253,7 +253,13 @@ pub fn run_writer(world: &WorldRef, prog: &WProg) -> WRun {
                         // rebuild: Shape has no Clone
                         if let Ok(s) = S::try_from(build(&prog.shapes[*i])) { v.push(s); }
                     }
-                    guarded(move || writer.write_shapes(&v))
+                    // handed over as a Vec, or (for lists of even length) through a lazy iterator that
+                    // cannot tell how many shapes it will yield (size_hint().0 == 0)
+                    if list.len() % 2 == 0 {
+                        guarded(move || writer.write_shapes(v.iter().filter(|_| true)))
+                    } else {
+                        guarded(move || writer.write_shapes(&v))
+                    }
                 }, Ok(Ok(())));
                 let res = res_of(r);
                 if res.is_ok() {
